@@ -24,6 +24,16 @@ def uid_pool(rng):
     for g in xxh.colliding_groups("k%d." % rng.randint(0, 99999), 400000 if bits <= 18 else 150000, bits,
                                   want=2 if bits <= 18 else 1, size=rng.choice([2, 3]) if bits <= 18 else 2):
         pool += g
+    if rng.random() < 0.4:
+        # a crowd at the end of the daemon's task table (home slots 29..31 of 32, i.e. 13..15 of 16 and 5..7 of 8): their
+        # probe sequences wrap around to slot 0, and cancels and retirements then pull entries across the wrap
+        n, got = rng.randint(0, 10 ** 6), 0
+        while got < rng.choice([4, 6, 9]):
+            n += 1
+            u = "e%d@verif" % n
+            if (xxh.xxh32(u) & 31) >= 29:
+                pool.append(u)
+                got += 1
     pool.append("L" * rng.choice([100, 200, 249]) + "@verif")
     pool += ["with space@verif", "Mixed/Case:colon@verif", "x"]
     # never two UIDs with the same full 32-bit key: those are one key by design
